@@ -17,7 +17,10 @@ from .sexp import Q
 class Ctx:
     """One verification condition's worth of z3 declarations."""
 
-    def __init__(self):
+    def __init__(self, abstract_order=False):
+        # abstract_order: comparisons other than =/!= become uninterpreted predicates on G. Validity under
+        # the abstraction implies validity under the real order (used only to turn `unknown` into `unsat`).
+        self.abstract_order = abstract_order
         self.G = None
         self._mk_sorts()
         self.preds = {}       # (name, arity, world) -> FuncDecl
@@ -114,6 +117,8 @@ class Ctx:
             return x == y
         if r == '!=':
             return x != y
+        if self.abstract_order:
+            return z3.Function('absrel' + r, self.G, self.G, z3.BoolSort())(x, y)
         if r == '<=':
             return self.leq(x, y)
         if r == '>=':
@@ -183,6 +188,8 @@ class Ctx:
     def compare(self, r, a, b, env):
         ka, kb = self.term_kind(a), self.term_kind(b)
         r = str(r)
+        if self.abstract_order and r not in ('=', '!='):
+            return self.rel(r, self.gterm(a, env), self.gterm(b, env))
         if ka == 'i' and kb == 'i':
             x, y = self.iterm(a, env), self.iterm(b, env)
             return {'=': x == y, '!=': x != y, '<': x < y, '<=': x <= y, '>': x > y, '>=': x >= y}[r]
